@@ -393,6 +393,7 @@ impl Check for Gates {
         for (i, s) in steps.iter().enumerate() {
             let before = w.storage_digest(&[&id]);
             let mut returned: Option<i32> = None;
+            let mut list_events: Option<usize> = None;
             let (kind, got) = match s {
                 Step::Wait { n } => {
                     w.advance(*n);
@@ -416,7 +417,10 @@ impl Check for Gates {
                         (_, true) => "block_user",
                         (_, false) => "unblock_user",
                     };
-                    ("list", call(f, (a(*user), a(*operator)).into_val(e), signed.then_some(*operator)))
+                    let g = call(f, (a(*user), a(*operator)).into_val(e), signed.then_some(*operator));
+                    // the list events of this very invocation (user_allowed / user_disallowed / user_blocked / user_unblocked)
+                    list_events = Some(w.last_events().iter().filter(|ev| ev.name.starts_with("user_")).count());
+                    ("list", g)
                 }
                 Step::Mint { to, amt } => ("mint", call("mint", (a(*to), *amt).into_val(e), Some(0))),
                 Step::Transfer { from, to, amt } => ("transfer", call("transfer", (a(*from), a(*to), *amt).into_val(e), Some(*from))),
@@ -427,6 +431,14 @@ impl Check for Gates {
             };
             let snapshot = m.clone();
             let exp = m.apply(cfg, s);
+            if let (Step::List { user, .. }, Some(n), true, true) = (s, list_events, got, exp) {
+                // idempotent also for observers: a call that changes nothing announces nothing, a change is announced once
+                let want = (snapshot.listed.contains(user) != m.listed.contains(user)) as usize;
+                if n != want {
+                    return Err(violation("list.idempotent_immediate", "events", i, format!("{s:?} emitted {n} list events, the list {} change", if want == 1 { "did" } else { "did not" })));
+                }
+                st.hit(if want == 1 { "probe.list_change_announced_once" } else { "probe.repeated_list_change_is_silent" });
+            }
             if kind != "wait" {
                 st.tx(kind, got);
             }
